@@ -41,6 +41,8 @@ def sample(g, cls):
         return g.uniform(-1, 1)
     if cls == "big":
         return g.choice([1, -1]) * g.uniform(1, 10) * 10.0 ** g.randint(6, 18)
+    if cls == "huge":
+        return g.choice([1, -1]) * g.uniform(1, 10) * 10.0 ** g.choice([40, 72, 73, 74, 80, 120])
     if cls == "tiny":
         return g.choice([1, -1]) * g.uniform(1, 10) * 10.0 ** -g.randint(3, 30)
     if cls == "zero":
@@ -109,7 +111,7 @@ class C01(Prop):
             nc = g.randint(1, 40)
         nr = g.randint(21, 60) if g.random() < 0.12 else g.randint(1, 12)
         null = g.choice(NULLS) if g.random() < 0.4 else None
-        classes = g.sample(["smallint", "fixed", "unit", "big", "tiny", "zero", "nearnull", "plain"], g.randint(1, 4))
+        classes = g.sample(["smallint", "fixed", "unit", "big", "tiny", "zero", "nearnull", "plain", "huge"], g.randint(1, 4))
         nan_p = g.choice([0.0, 0.1, 0.3])
         cols = []
         for j in range(nc):
@@ -182,7 +184,8 @@ class C01(Prop):
             kw["len_numeric_field"] = -1
         elif sc["lnf"] in ("fit", "fit+3"):
             kw["len_numeric_field"] = longest + (3 if sc["lnf"] == "fit+3" else 0)
-        width = max(sc["data_width"], longest + 8)
+        # data_width has to hold the longest field only when rows are folded (documented precondition of wrapping)
+        width = max(sc["data_width"], longest + 8) if kw.get("wrap") else sc["data_width"]
         if width != 79:
             kw["data_width"] = width
         las = lasio.LASFile()
